@@ -1,11 +1,58 @@
-(* C12 — property theorems only (join, lexically_relative, preferred vs C++17). *)
+(* C12 — property theorems only: zix_path_join, zix_path_lexically_relative and zix_path_preferred
+   (faithful models in PathJoinModel.v) against the C++17 path operations (PathJoinSpec.v).
+   Argument strings are lists of non-zero bytes (`nonul`); NULL arguments are `None`. *)
 From Coq Require Import ZArith List Bool.
-From Zix Require Import PathJoinSpec PathJoinModel.
+From Zix Require Import PathJoinSpec PathJoinModel PathJoinProofs.
 Import ListNotations.
 Local Open Scope Z_scope.
 
-(* the three repaired witnesses, on the faithful model: 'a/' vs 'a/.' = ".", "" vs "a" = "..",
-   '//' vs '/a' = ".." *)
+(* ---- join: text equality with C++17 `a / b`, for all pairs including NULL arguments *)
+Theorem join_eq :
+  forall a b : option str, nonul (opt_str a) -> nonul (opt_str b) ->
+    join_text a b = Ok (std_join_opt a b).
+Proof. exact join_text_ok. Qed.
+Print Assumptions join_eq.
+
+(* the model never reads outside a NUL-terminated argument (or through NULL), never runs out of fuel *)
+Theorem join_reads_in_bounds :
+  forall a b : option str, nonul (opt_str a) ->
+    zix_path_join a b <> OOB /\ zix_path_join a b <> NoFuel.
+Proof.
+  intros a b Na. destruct (join_ok a b Na) as [r [H _]]. rewrite H. split; discriminate.
+Qed.
+Print Assumptions join_reads_in_bounds.
+
+(* every write lands inside the allocation; the bytes written are exactly the result text and its
+   NUL, and they fill the allocated block exactly *)
+Theorem join_result_fits :
+  forall a b : option str, nonul (opt_str a) ->
+    exists r, zix_path_join a b = Ok r
+              /\ b_cells r = std_join_opt a b ++ [0]
+              /\ b_size r = slen (std_join_opt a b) + 1.
+Proof. exact join_ok. Qed.
+Print Assumptions join_result_fits.
+
+(* ---- preferred: the identity on POSIX, exact-size result *)
+Theorem preferred_id :
+  forall s : str, nonul s -> preferred_text s = Ok (std_preferred s) /\ std_preferred s = s.
+Proof. intros s N. split; [exact (preferred_text_ok s N)|reflexivity]. Qed.
+Print Assumptions preferred_id.
+
+Theorem preferred_result_fits :
+  forall s : str, exists r, zix_path_preferred s = Ok r /\ b_cells r = s ++ [0] /\ b_size r = slen s + 1.
+Proof. exact preferred_ok. Qed.
+Print Assumptions preferred_result_fits.
+
+(* hypotheses are satisfiable, and the statements are about non-trivial inputs *)
+Example join_example :
+  join_text (Some [47;97]) (Some [98;47]) = Ok [47;97;47;98;47] /\
+  join_text (Some [47]) (Some [97]) = Ok [47;97] /\
+  join_text (Some [97]) (Some [47;98]) = Ok [47;98] /\
+  join_text None (Some [98]) = Ok [98] /\ join_text (Some [97;47]) None = Ok [97;47].
+Proof. vm_compute. repeat split. Qed.
+
+(* ---- lexically_relative: the three repaired witnesses, on the faithful model:
+   'a/' vs 'a/.' = ".", "" vs "a" = "..", '//' vs '/a' = ".." *)
 Theorem relative_fixed_witnesses :
   relative_text [97;47] [97;47;46] = Ok (Some [46]) /\
   relative_text [] [97] = Ok (Some [46;46]) /\
